@@ -270,11 +270,31 @@ pub fn bytes_case(id: &str, ty: &str, b: &[u8]) -> Value {
     json!({"ev": "wire_bytes", "id": id, "type": ty, "bytes": b, "dec_f": dec_f, "re": re, "again": again})
 }
 
+/// ANY byte string through both decoders of a header type (from_slice, io::Read): whatever a decoder accepts must re-encode to bytes that
+/// BOTH decoders accept and decode to the same value again (C08, last clause); [accepted, stable] per door
+fn any_case(id: &str, ty: &str, b: &[u8]) -> Value {
+    use crate::io::Any;
+    let stable = |v: &Any| -> i64 {
+        let re = v.bytes();
+        let a = Any::from_slice(ty, &re).map(|(x, used)| x.bytes() == re && used == re.len()).unwrap_or(false);
+        let mut c = Cursor::new(&re[..]);
+        let r = Any::read(ty, &mut c).map(|x| x.bytes() == re).unwrap_or(false) && c.position() as usize == re.len();
+        // icmp4 timestamps decode only from a slice that ends with the header: the re-encoding does
+        b2i(a && r)
+    };
+    let sl = match Any::from_slice(ty, b) { Ok((v, _)) => vec![1, stable(&v)], Err(_) => vec![0, -1] };
+    let mut c = Cursor::new(b);
+    let rd = match Any::read(ty, &mut c) { Ok(v) => vec![1, stable(&v)], Err(_) => vec![0, -1] };
+    json!({"ev": "wire_any", "id": id, "type": ty, "bytes": b, "slice": sl, "read": rd})
+}
+
 pub fn run_case(id: &str, c: &Value) -> Value {
     let ty = c["type"].as_str().unwrap().to_string();
     let kind = c["kind"].as_str().unwrap().to_string();
     let r = catch_unwind(AssertUnwindSafe(|| {
-        if kind == "value" {
+        if kind == "any" {
+            any_case(id, &ty, &u8s(&ints(&c["bytes"])))
+        } else if kind == "value" {
             value_case(id, &ty, &ints(&c["f"]))
         } else {
             bytes_case(id, &ty, &u8s(&ints(&c["bytes"])))
